@@ -1,6 +1,8 @@
 CONSTANTS Threads <- T3
           Programs <- ProgLock
           NotifyUnderLock = TRUE
+          Delegates <- NoD
+          CursorBeforeWake = FALSE
           SpuriousWakeups = FALSE
 SPECIFICATION FairSpec
 INVARIANTS NoTouchAfterDestroy LockInv NoSpuriousReturn QueueInv QueueWellFormed PerProducerOrder
